@@ -18,13 +18,14 @@ JSignBuild(e) ==
       optcls == IF "pairs" \in DOMAIN m THEN BodyClass(SerBody(SortPairs(m.pairs))) ELSE "-"
       cls == e.fn \o "/st=" \o ToString(e.st) \o (IF tst >= 0 THEN "/tst=" \o ToString(tst) ELSE "") \o "/opts=" \o optcls
       built == r.setup /\ r.ok
+      matching == "edsigner" \notin DOMAIN m      \* the signing key is the one the structure announces (C06 speaks of matching keys only)
   IN
   << R("C06", "probe_set_up", TRUE, r.setup, cls),
-     R("C06", "trailing_signature_is_reference_layout", built /\ r.serok /\ sl.ok,
+     R("C06", "trailing_signature_is_reference_layout", built /\ r.serok /\ sl.ok /\ matching,
        sl.sigoff = Len(r.ser) - e.siglen /\ sl.siglen = e.siglen /\ e.prefix = StoreTypePrefix(rd), cls),
-     R("C06", "library_signed_structure_verifies", built, r.verify_ok, cls),
-     R("C06", "library_signature_valid_under_matching_key", built /\ r.serok, r.indep_ok, cls),
-     R("C06", "still_verifies_after_serialise_and_parse", built /\ r.serok, r.rt_parse_ok /\ r.rt_verify_ok, cls),
+     R("C06", "library_signed_structure_verifies", built /\ matching, r.verify_ok, cls),
+     R("C06", "library_signature_valid_under_matching_key", built /\ r.serok /\ matching, r.indep_ok, cls),
+     R("C06", "still_verifies_after_serialise_and_parse", built /\ r.serok /\ matching, r.rt_parse_ok /\ r.rt_verify_ok, cls),
      R("C14", "constructor_ok_implies_validate_ok", built /\ r.hasvalid, r.validok, cls),
      R("C14", "valid_value_round_trips", built /\ r.hasvalid /\ r.validok, r.serok /\ r.rt_parse_ok /\ r.rt_same, cls),
      R("C14", "constructor_rejects_documented_defect", r.setup /\ e.fn = "NewEncryptedLeaseSet" /\
